@@ -185,7 +185,8 @@ func runCase(c *fw.Ctx, id string, idx int) {
 		pcls := "pdf+" + cls
 		c.Guard(pcls, id, detail, func() {
 			path := filepath.Join(c.Work, fmt.Sprintf("c08-%d.pdf", idx))
-			if err := os.WriteFile(path, pdfFile(p), 0o644); err != nil {
+			polluter := idx%18 == 9
+			if err := os.WriteFile(path, pdfFile(p, polluter), 0o644); err != nil {
 				c.Inconclusive("cannot write scratch PDF: " + err.Error())
 				return
 			}
@@ -196,6 +197,17 @@ func runCase(c *fw.Ctx, id string, idx int) {
 				return
 			}
 			c.Count("pdf_documents_extracted", 1)
+			if polluter {
+				// the first page's own fragment is not part of the program
+				kept := frags[:0:0]
+				for _, f := range frags {
+					if f.Text != polluterText {
+						kept = append(kept, f)
+					}
+				}
+				frags = kept
+				c.Count("pdf_documents_with_a_state_polluting_first_page", 1)
+			}
 			compareFragments(c, id, pcls, frags, ref, detail)
 		})
 	}
@@ -371,14 +383,24 @@ func Run(c *fw.Ctx) {
 }
 
 // pdfFile wraps the program in a minimal one-page PDF (classic xref table).
-func pdfFile(p *program) []byte {
+// polluterText is what the optional first page shows. Its content stream leaves
+// every text-state parameter away from its default and ends inside a q with a
+// changed CTM: each page starts from the initial graphics state, so nothing of
+// this may reach the page under test.
+const polluterText = "polluter"
+
+func pdfFile(p *program, polluter bool) []byte {
 	var objs []string // objs[i] is object i+1
 	add := func(body string) int { objs = append(objs, body); return len(objs) }
 	stream := func(dict string, data []byte) string {
 		return fmt.Sprintf("<<%s/Length %d>>\nstream\n%s\nendstream", dict, len(data), data)
 	}
 	add("<</Type/Catalog/Pages 2 0 R>>")
-	add("<</Type/Pages/Kids[3 0 R]/Count 1>>")
+	if polluter {
+		add("<</Type/Pages/Kids[POLLUTER 3 0 R]/Count 2>>")
+	} else {
+		add("<</Type/Pages/Kids[3 0 R]/Count 1>>")
+	}
 	add("") // page, filled in below
 	add(stream("", render(p.ops)))
 	f1 := add("<</Type/Font/Subtype/Type1/BaseFont/Helvetica>>")
@@ -432,6 +454,11 @@ func pdfFile(p *program) []byte {
 		add(stream(d, f.data()))
 	}
 	objs[2] = "<</Type/Page/Parent 2 0 R/MediaBox[0 0 612 792]/Resources<<" + fonts + xobj(top) + ">>/Contents 4 0 R>>"
+	if polluter {
+		pc := add(stream("", []byte("BT /F2 7 Tf 17 TL 3 Tc 2 Tw 80 Tz 4 Ts 1 0 0 1 9 9 Tm 5 -11 TD ("+polluterText+") Tj ET\n2 0 0 2 30 40 cm q 3 0 0 3 7 7 cm BT /F3 5 Tf 13 TL 1 1 Td")))
+		pp := add(fmt.Sprintf("<</Type/Page/Parent 2 0 R/MediaBox[0 0 612 792]/Resources<<%s>>/Contents %d 0 R>>", fonts, pc))
+		objs[1] = strings.Replace(objs[1], "POLLUTER", fmt.Sprintf("%d 0 R", pp), 1)
+	}
 	var b bytes.Buffer
 	b.WriteString("%PDF-1.4\n")
 	offs := make([]int, len(objs))
